@@ -777,3 +777,115 @@ def rule_shutdown_stream(ctx, res):
         if any(e[0] == 'call' and e[1] and e[1].endswith('Clone>::clone') for e in p.effects):
             ok = False
     res.check(ok, 'TYPE', b.path, 'search() moves the only sender into the command; if the handler is gone the command (and sender) is dropped and the stream ends')
+
+
+def _iter_domain(ctx, res, t):
+    """normal form of an iterator term `src.iter().filter(F)*[.copied()]`: (source term, [predicate signatures]).
+    A predicate signature is ('not-in', set term) for closures `|x| !SET.contains(x)`, else ('closure', path)."""
+    from .c05 import pipeline
+    pl = pipeline(strip_transparent(t))
+    src = None
+    preds = []
+    for st in pl:
+        if st[0] == 'src':
+            src = strip_transparent(st[1])
+            while isinstance(src, tuple) and src and src[0] == 'call' and src[1].split('::')[-1] in ('iter', 'deref', 'as_slice', 'into_iter'):
+                src = strip_transparent(src[2][0])
+        elif st[0] in ('copied', 'cloned', 'iter', 'into_iter'):
+            continue
+        elif st[0] == 'filter':
+            cl = st[1]
+            sig = ('closure', fmt(cl))
+            if isinstance(cl, tuple) and cl and cl[0] == 'closure' and ctx.f.body(cl[1]) is not None:
+                cb = ctx.f.body(cl[1])
+                res.touch(cb)
+                cs = Sym(cb)
+                cs.run()
+                cps = cs.complete_paths()
+                if len(cps) == 1 and not cps[0].conds:
+                    r = strip_transparent(cps[0].ret)
+                    if isinstance(r, tuple) and r[0] == 'un' and r[1] == 'Not':
+                        inner = strip_transparent(r[2])
+                        if inner[0] == 'call' and inner[1].split('::')[-1] == 'contains':
+                            cap = strip_transparent(inner[2][0])
+                            elem = strip_transparent(inner[2][1])
+                            # the receiver is a captured variable: resolve it through the closure's capture list
+                            ch = field_chain(cap)
+                            if ch and len(ch) == 1 and ch[0] in cb.upvars and is_param(root_of(cap)) and root_of(cap)[1] == 1 \
+                                    and is_param(root_of(elem)) and root_of(elem)[1] == 2 and not field_chain(elem):
+                                capt = cl[2][cb.upvars.index(ch[0])]
+                                sig = ('not-in', fmt(strip_transparent(capt)))
+            preds.append(sig)
+        else:
+            preds.append(('other', st[0]))
+    return src, preds
+
+
+def rule_round_nonempty(ctx, res):
+    """ROUND-NONEMPTY: an iterative round is started only with at least one node to query.
+
+    start_request_round wipes the whole outstanding set when it sent nothing (meant for send failures).  In
+    recv_response the round is started when `fold(D, dist_to_beat) < dist_to_beat`; a fold over an empty
+    domain returns its initial value, so D is non-empty on that branch.  The nodes picked for the round
+    must be drawn from the same domain D (same list, same filters): otherwise "got closer" can hold
+    while nothing is left to query, the round sends nothing, and every in-flight query of the search is
+    forgotten (answers within 1.5 s are then dropped: C04; their peers and tokens are lost: C02)."""
+    b, s = sym_of(ctx, res, RECV_RESPONSE)
+    n = 0
+    ok = True
+    why = ''
+    for p in s.paths:
+        picks = [e for e in p.effects if e[0] == 'call' and e[1] == 'action::lookup::pick_iterate_nodes']
+        if not picks:
+            continue
+        folds = []
+        for c in p.conds:
+            l = literal(c)
+            if l[0] == 'lt' and l[3] is True and isinstance(l[1], tuple) and l[1][0] == 'call' and l[1][1].endswith('::fold'):
+                folds.append(l)
+        for e in picks:
+            n += 1
+            if len(folds) != 1:
+                ok = False
+                why = 'no single `fold(..) < dist_to_beat` condition guards the pick'
+                continue
+            l = folds[0]
+            fold = l[1]
+            init = strip_transparent(fold[2][1])
+            if fmt(init) != fmt(strip_transparent(l[2])):
+                ok = False
+                why = 'the fold does not start from the distance it is compared with'
+                continue
+            d_fold = _iter_domain(ctx, res, fold[2][0])
+            d_pick = _iter_domain(ctx, res, e[2][0])
+            same_src = d_fold[0] is not None and fmt(d_fold[0]) == fmt(d_pick[0])
+            # the pick may filter less than the fold (superset), never more
+            sub = all(x in d_fold[1] for x in d_pick[1]) and all(x[0] == 'not-in' for x in d_pick[1])
+            if not (same_src and sub):
+                ok = False
+                why = 'fold ranges over %s %s but the round is picked from %s %s' % (fmt(d_fold[0])[:60], d_fold[1], fmt(d_pick[0])[:60], d_pick[1])
+    res.check(ok and n >= 1, 'FLOW', b.path, 'the nodes picked for an iterative round come from the very domain whose fold beat the distance (so the round is never empty and the wipe-on-nothing-sent cannot hit in-flight queries)',
+              detail=why, key='round-nonempty')
+    # the round receives the picked slots that are in use
+    nr = 0
+    okr = True
+    for p in s.paths:
+        for e in p.effects:
+            if e[0] == 'call' and e[1] == START_ROUND:
+                nr += 1
+                arg = strip_transparent(e[2][1])
+                if not find_calls(arg, 'pick_iterate_nodes'):
+                    okr = False
+    res.check(okr and nr >= 1, 'FLOW', b.path, 'the iterative round is given the slots filled by pick_iterate_nodes', key='round-from-pick')
+    # pick_iterate_nodes / insert_closest_nodes: the first candidate always lands in a slot and marks it used
+    ib = ctx.body('action::lookup::insert_closest_nodes')
+    res.touch(ib)
+    isym = Sym(ib)
+    isym.run()
+    first = False
+    for p in isym.paths:
+        # a path that meets an unused slot writes used = true and returns
+        lits = [literal(c) for c in p.conds]
+        if p.end == 'return' and any(w[0] == 'write' for w in p.effects):
+            first = True
+    res.check(first, 'FLOW', ib.path, 'insert_closest_nodes places a candidate in the first unused slot (a non-empty candidate set fills at least one slot)', key='pick-fills')
